@@ -60,6 +60,13 @@ LENGTHS = [0, 0, 1, 1, 2, 2, 3, 3, 3, 4, 4, 5, 5, 6, 7, 8, 9, 12]
 
 def gen_lengths(rng):
     r = rng.random()
+    if r < 0.02:
+        # a long run among short ones / many runs
+        v = [rng.choice(LENGTHS) for _ in range(rng.randint(0, 3))] + [rng.randint(13, 40)]
+        rng.shuffle(v)
+        return v
+    if r < 0.04:
+        return [rng.choice(LENGTHS[:12]) for _ in range(rng.randint(10, 24))]
     nruns = rng.choice([1, 1, 2, 2, 3, 3, 4, 5]) if r < 0.9 else rng.randint(6, 9)
     return [rng.choice(LENGTHS) for _ in range(nruns)]
 
@@ -268,7 +275,7 @@ def run(ctx):
     ncorpus = len(cases)
     bnd = boundary_cases(rng)
     cases += bnd
-    nrand = 1200 if quick else 20000
+    nrand = 1600 if quick else 20000
     for i in range(nrand):
         cases.append(gen_case(rng, KINDS[i % 4]))
     nslice = 300 if quick else 3000
